@@ -47,6 +47,10 @@ def constructed_cases(ctx):
     tw_mid = C.relabel_residues(a, {ids[3]: (ids[2][0], ids[2][1], "A")})
     cases.append(("twins-interior", C.join(tw_mid + [C.TER]), []))
     cases.append(("same-start-number-no-TER", C.join(no_oxt(a) + no_oxt(C.shift_numbers(b, 0))), ["-c", "A", "-c", "B"]))
+    # insertion-coded twins of the SAME ionizable type (GLU 97 / GLU 97A): two sites, two rows
+    pairs = C.adjacent_same_type()
+    for k, (src, lines, a1, a2) in enumerate(pairs if ctx.thorough() else pairs[1:4]):
+        cases.append((f"same-type-twins-{src}-{a1[1]}", C.join(C.make_twins(lines, a1, a2) + [C.TER]), []))
     # titrating residues at chain starts: first residue Asp / His / Cys (covalently coupled N+ / side chain)
     e = C.chain_lines("3SGB", "I", 0, 10)
     cases.append(("nterm-asp", C.join(e + [C.TER]), []))
